@@ -180,7 +180,40 @@ func TestVerifC15(t *testing.T) {
 		nsteps := 1 + rng.IntN(5)
 		var pending []map[string]*conf.Path
 		for k := 0; k < nsteps; k++ {
+			// one reload may combine several edits (a file rewrite): e.g. remove one configuration and
+			// change another, or replace a configuration by another one of the same content (rename)
 			next, what := c15Mutate(rng, cur)
+			for extra := rng.IntN(3); extra > 0; extra-- {
+				var w2 string
+				next, w2 = c15Mutate(rng, next)
+				what += "+" + w2
+			}
+			if rng.IntN(5) == 0 {
+				names := wbSortedKeys(next)
+				from := names[rng.IntN(len(names))]
+				to := c15ConfNames[rng.IntN(len(c15ConfNames))]
+				if _, ok := next[to]; !ok {
+					next[to] = next[from]
+					delete(next, from)
+					what += "+rename:" + from + "->" + to
+				}
+			}
+			if rng.IntN(4) == 0 && len(clients) > 0 {
+				// targeted: a live path loses its configuration and falls to another one which is edited in the
+				// same reload so that, for this path, only hot-reloadable fields differ (the path must survive)
+				c := clients[rng.IntN(len(clients))]
+				if on, _, ok := cur.resolve(c.name); ok {
+					cand := cur.clone()
+					delete(cand, on)
+					if nn, _, ok2 := cand.resolve(c.name); ok2 && len(cand) > 0 {
+						t2 := cand[nn]
+						t2.MaxReaders = cur[on].MaxReaders
+						t2.Forward = (t2.Forward + 1) % 3
+						cand[nn] = t2
+						next, what = cand, "move:"+c.name+":"+on+"->"+nn+"(aligned)"
+					}
+				}
+			}
 			steps = append(steps, what)
 			// expected survival of every client path across this step
 			for _, c := range clients {
